@@ -15,8 +15,9 @@ from . import c05
 PID = "C17"
 THEOREMS = [
     "same_edges_same_metric", "upper_eq_symmetric", "relabel_bracket", "relabelled_graph_same_metric",
-    "relabelled_graphs_isometric", "collection_symmetric_zero_diag",
-    "collection_entries_are_pairwise", "largest_component_connected", "largest_component_is_metric",
+    "relabelled_graphs_isometric", "hop_metric_is_shortest_path", "make_dm_returns_metric",
+    "relabelled_connected_graphs_isometric_dm", "pair_call_end_to_end", "collection_symmetric_zero_diag",
+    "collection_entries_are_pairwise", "largest_component_connected", "largest_component_is_metric", "largest_component_is_induced_metric",
     "pair_brackets", "collection_entries_bracket", "fallback_legacy_refuted", "fallback_legacy_always_raises",
 ]
 RULE = ("seeded generator: graphs with 1-7 vertices, connected or with 2-3 components (ties among largest components "
@@ -27,15 +28,17 @@ RULE = ("seeded generator: graphs with 1-7 vertices, connected or with 2-3 compo
         "distinct = distinct JSON input")
 TRUSTED_BASE = [
     "Coq 8.16.1 kernel, vm_compute; development closed under the global context (no axioms)",
-    "hand-written model Model/GraphM.v of gromov_hausdorff.py lines 143-263; executable Floyd-Warshall stands for "
-    "scipy shortest_path / connected_components (compared per case)",
+    "hand-written model Model/GraphM.v of gromov_hausdorff.py lines 143-263; its Floyd-Warshall is proved to be a "
+    "correct shortest-path answer (hop_metric_is_shortest_path) and stands for scipy shortest_path / "
+    "connected_components, which are compared with it per case",
     "harness: generator of representations, warning/exception capture, printer, verdict parser",
     "independent Python predicate: BFS, components, branch-and-bound mGH between largest components",
 ]
 ASSUMPTIONS = [
     "scipy shortest_path(directed=False, unweighted=True) returns the hop metric of the undirected graph whose edges "
     "are the stored non-zeros, and connected_components labels components by smallest vertex (both compared per case)",
-    "in theorems about the fallback, shortest_path's result is any matrix whose finiteness relation is an equivalence",
+    "theorems about the fallback hold for ANY shortest-path result whose finiteness relation is an equivalence (and "
+    "for any correct shortest-path answer, spec sp); the executable instance is proved to be one",
     "explicitly stored zeros in sparse inputs, NaN/inf entries and non-square inputs are outside the generator",
     "lower-bound soundness inherits C05's explicit greedy-completeness hypothesis",
 ]
